@@ -467,7 +467,8 @@ class LambdaExpression(Expression):
         return [self.expression]
 
     def scope(self) -> Iterable[Identifier]:
-        return self.params
+        # Only the item and its index are ever bound, see `map()`.
+        return self.params[:2]
 
     def map(self, context: RenderContext, it: Iterable[object]) -> Iterator[object]:
         """Return an iterator mapping this expression to items in _it_."""
